@@ -28,7 +28,7 @@ YOUR TASK: make a change to the source code under {wt}/src that BREAKS this prop
   4. it does NOT show under ordinary use. It must need something specific to manifest: a particular interleaving or arrival order, a crash or fault at a particular point, a multi-step sequence of operations, an unusual (but legal) input, a particular configuration, or two cooperating code sites that each look fine alone. Prefer a part of the property's statement or quantifier that is easy to overlook (read the whole statement: every clause is fair game), and prefer mechanisms other than the most obvious one.
 {('  5. it must be DIFFERENT in mechanism from these changes, which were already made by others: ' + '; '.join(taken)) if taken else ''}
 
-Then write a DEMONSTRATION: an integration test file {wt}/tests/seeded_demo.rs (one or more #[test]/#[tokio::test] functions; it may use dev-dependencies already in Cargo.toml: tokio, tempfile, rand, anyhow, etc. - nothing can be downloaded) that FAILS with your change and PASSES without it (check both: `git stash` / `git checkout -- src` to remove the change, but keep the test). Run it with  cargo test --offline --test seeded_demo  (add --features verif-hooks if you use the hooks). The demonstration must fail because the property's statement is violated (assert on observable behaviour), not because of an implementation detail.
+Then write a DEMONSTRATION: an integration test file {wt}/tests/seeded_demo.rs (one or more #[test]/#[tokio::test] functions; it may use dev-dependencies already in Cargo.toml: tokio, tempfile, rand, anyhow, etc. - nothing can be downloaded) that FAILS with your change and PASSES without it (check both; to remove the change save it with `git diff -- src > SEEDED/patch.diff` and run `git checkout -- src`, to restore it `git apply SEEDED/patch.diff`; do NOT use `git stash`: the stash is shared with other worktrees of this repository and other people use it concurrently). Run it with  cargo test --offline --test seeded_demo  (add --features verif-hooks if you use the hooks). The demonstration must fail because the property's statement is violated (assert on observable behaviour), not because of an implementation detail.
 
 DELIVERABLES, all under {wt}/SEEDED/ :
   - patch.diff      : output of `git -C {wt} diff -- src` (source change only, applies with `git apply` to a clean tree)
